@@ -8,9 +8,9 @@ from bounded import sieve_ref as ref
 ALL_CAPS = ["fileinto", "reject", "envelope", "body", "vacation", "vacation-seconds", "copy", "mailbox", "imap4flags",
             "relational", "regex", "date", "variables"]
 
-STRINGS = [b'"x"', b'"a b"', b'"caf\xc3\xa9"', b'"with \\"quote\\""', b'"semi;colon"', b'"[brackets]"', b'"a,b"',
+STRINGS = [b'"x"', b'"two\r\nlines"', b'"a b"', b'"caf\xc3\xa9"', b'"with \\"quote\\""', b'"semi;colon"', b'"[brackets]"', b'"a,b"',
            b'"back\\\\slash"', b'""']
-LISTS = [[b'"a"'], [b'"a"', b'"b"'], [b'"x,y"', b'"z"']]
+LISTS = [[b'"a"'], [b'"a"', b'"b"'], [b'"x,y"', b'"z"'], [b'"a"', b'"b"', b'"a"'], [b'"l1\r\nl2"', b'"l1\nl2"']]
 MULTILINE = [b"text:\r\nhello\r\n.\r\n", b"text:\nline1\nline2\n.\n"]
 
 
